@@ -226,15 +226,16 @@ def docDefaultAccelerator : String := Gen.Cfg.docAcceleratorDefault.getD ""
 
 /-! ## R1 files -/
 
-/-- `Dir/file.ini`: exactly a directory name and a file name -/
+/-- `Dir/file.ini`: exactly a directory name and a file name (no leading `/`, `./`, `../`, `~`) -/
 def isBundledName (p : String) : Bool :=
   match splitOnChar '/' (normpath p).toList with
-  | [d, f] => !d.isEmpty && !f.isEmpty && d.head? != some '.' && d.head? != some '~'
+  | [d, _] => !d.isEmpty && d.head? != some '.' && d.head? != some '~'
   | _ => false
 
-/-- where the documentation says the file is -/
+/-- where the documentation says the file is: under the bundled directory for `Dir/file.ini`, otherwise the
+    path as given (relative to the working directory unless absolute) -/
 def locate (env : Env) (p : String) : String :=
-  if isBundledName p then absPath env.cwd (pathJoin env.bundled (normpath p)) else absPath env.cwd p
+  absPath env.cwd (if isBundledName p then pathJoin env.bundled (normpath p) else normpath p)
 
 /-- content of the configuration files of one invocation; `located` are absolute names.
     A file that cannot be opened contributes nothing (`ConfigParser.read`), one that cannot be parsed is an error. -/
@@ -274,7 +275,7 @@ def specMain (env : Env) (a : MainArgs) : Verdict Arch :=
     | none => .reject
     | some isU65 =>
       let located := a.configs.map (locate env)
-      let allOk := a.configs.all (fun p => endsWithL ".ini".toList (normpath p).toList) &&
+      let allOk := a.configs.all hasIniExt &&
         located.all (fun p => (env.files.lookup p).isSome)
       if !allOk then .reject else
       let sys := a.systemConfig.getD internalDefault
